@@ -178,7 +178,7 @@ def run_property(pid, tier="quick", seed=0, only=None, jobs=None, no_replay=Fals
         traceback.print_exc()
         return 2
     keys = [(si, k) for si, cs in enumerate(sets) for k, f in cs.fns.items()
-            if f.verified and (not only or only in k)]
+            if f.verified and (not only or only in k) and (cs.only_verify is None or k in cs.only_verify)]
     # additional contract sets of the same property (e.g. a bounded scenario with its own models) are merged in
     for extra in sets[1:]:
         for k, f in extra.fns.items():
@@ -284,7 +284,10 @@ def run_property(pid, tier="quick", seed=0, only=None, jobs=None, no_replay=Fals
                     kf = k
                     break
             rep_path = os.path.join(HERE, "out", "replay", "%s-%s.json" % (pid, sanitize(name)))
-            if ob["info"].get("kind") == "finite-check":
+            if ob["info"].get("kind") == "structure":
+                out = {"ok": True}
+                reproduced, why = True, "structural fact of the current tree: %s" % ob["clause"]
+            elif ob["info"].get("kind") == "finite-check":
                 out = {"ok": True, "finite": ob["info"].get("detail")}
                 reproduced, why = True, "finite check on the real tree failed: %s" % (ob["info"].get("detail"),)
             elif no_replay:
